@@ -326,7 +326,7 @@ def run_search(case, record=True):
     logits = torch.tensor(case["logits"], dtype=torch.float64).view(T, N, V + 1)
     lens = None if case["lens"] is None else torch.tensor(case["lens"], dtype=torch.long)
     fused = case["fusion"] != "none"
-    lm = _mk_lm(case) if case.get("lm") else None
+    lm = _mk_lm(case) if (fused and case.get("lm")) else None
     calls = []
     orig = dec.ctc_prefix_search_advance
 
@@ -340,7 +340,7 @@ def run_search(case, record=True):
         return res
 
     try:
-        search = CTCPrefixSearch(w, case["beta"], lm, valid_mixture=(case["fusion"] == "mix")) if fused or lm is not None \
+        search = CTCPrefixSearch(w, case["beta"], lm, valid_mixture=(case["fusion"] == "mix")) if lm is not None \
             else CTCPrefixSearch(w)
         with mock.patch.object(dec, "ctc_prefix_search_advance", spy):
             y, y_lens, y_probs = search(logits, lens)
@@ -374,7 +374,7 @@ def _lenmax(case):
 
 
 def _fus_lm_terms(case):
-    if case["fusion"] == "none" or not case.get("lm") or not case["beta"]:
+    if case["fusion"] == "none" or not case.get("lm") or not case["beta"]:  # "if self.lm is None or not self.beta"
         return "NoLM", "no_lm"
     lm = case["lm"]
     tab = cl([clq(r) for r in lm_rows(case)])
@@ -471,10 +471,8 @@ def light_spec(case, out):
             return f"element {n}: negative mass {vals}"
         if any(vals[k] < vals[k + 1] - 1e-12 for k in range(len(vals) - 1)):
             return f"element {n}: probabilities not non-increasing {vals}"
-        pos = [(tuple(c), v) for c, v, l in zip(e["y"], vals, e["lens"]) if v > 1e-12]
-        for c, l in zip(e["y"], e["lens"]):
-            pass
-        for (c, v), l in zip([(tuple(c), v) for c, v in zip(e["y"], vals)], e["lens"]):
+        pos = [(tuple(c), v) for c, v in zip(e["y"], vals) if v > 1e-12]
+        for c, v, l in zip(e["y"], vals, e["lens"]):
             if v > 1e-12 and (l != len(c) or l > _len_of(case, n) or any(t < 0 or t >= case["V"] for t in c)):
                 return f"element {n}: positive-mass prefix {c} (len {l}) not a blank-free sequence within {_len_of(case, n)} frames"
         if len({c for c, _ in pos}) != len(pos):
@@ -572,11 +570,6 @@ def gen_search_exhaustive(thorough):
                     cases.append(dict(kind="search", T=T, N=1, V=V, width=width, logits=[[list(p)] for p in combo],
                                       lens=None, fusion="none", beta=0.2, lm=None))
     return cases
-
-
-def search_nontrivial(case):
-    lm_ = _lenmax(case)
-    return lm_ >= 2 and case["width"] < _nprefixes(case["V"], lm_) or (lm_ >= 2 and case["V"] >= 1)
 
 
 # ------------------------------------------------------------------------------------------
